@@ -217,12 +217,16 @@ func genC43(t *rapid.T) c43Case {
 	// history after creation: whole-wallet re-encryption (all passwords right / one wrong / all wrong),
 	// password change, deletion, default/label changes, a late account, re-opening the file
 	kinds := []string{"tolow", "tolow", "tolow", "todefault", "chpw", "chpw", "delete", "setdefault", "setlabel", "new", "reload", "reload"}
-	nOps := rapid.SampledFrom([]int{0, 0, 1, 2, 3}).Draw(t, "nops")
+	nOps := rapid.SampledFrom([]int{0, 1, 1, 2, 3}).Draw(t, "nops")
 	for i := 0; i < nOps; i++ {
 		o := c43Op{Op: rapid.SampledFrom(kinds).Draw(t, "op"), At: rapid.IntRange(0, 3).Draw(t, "at")}
+		if i > 0 && c.Ops[i-1].Op == "tolow" && c.Ops[i-1].Mode == "right" && rapid.IntRange(0, 2).Draw(t, "late") == 0 {
+			o.Op = "new" // an account added to a converted wallet
+		}
 		switch o.Op {
 		case "tolow", "todefault":
 			o.Mode = rapid.SampledFrom([]string{"right", "wrong-at", "wrong-at", "all-wrong"}).Draw(t, "convmode")
+			o.At = rapid.SampledFrom([]int{1, 1, 1, 2, 3, 0}).Draw(t, "convat") // mostly a later account: the conversion fails half-way
 			o.Wrong = rapid.SliceOfN(rapid.ByteRange(0x21, 0x7e), 1, 12).Draw(t, "wrongpw")
 		case "chpw":
 			o.Mode = rapid.SampledFrom([]string{"right", "right", "wrong"}).Draw(t, "chmode")
